@@ -867,6 +867,19 @@ func checkC06Judge(rc *Run, res *TLCResult, final, split []*jrun, parallel func(
 			}
 		}
 	}
+	// ---- a custom tag does not change what a scalar denotes: the value, read as YAML resolves it, is what JSON gets
+	{
+		xdir := filepath.Join(rc.Out, "extra")
+		for _, xc := range []struct{ yaml, want string }{
+			{"a: !custom false\nb: !t true\nc: !x 12\nd: !y 1.5\ne: !z ~\nf: !w text\n", `{"a":false,"b":true,"c":12,"d":1.5,"e":null,"f":"text"}`},
+		} {
+			p := runProc(xdir, []byte(xc.yaml), "-o=json", "-I0", ".")
+			if got := strings.TrimSpace(p.Stdout); p.Code != 0 || got != xc.want {
+				rc.Report("extra:y2j:custom-tagged-scalars", fmt.Sprintf("yq -o=json on %q prints %q (exit %d); the scalars denote %s", xc.yaml, p.Stdout, p.Code, xc.want),
+					M{"machine": "JsonText", "concrete": M{"argv": []string{"yq", "-o=json", "-I0", "."}, "stdin": xc.yaml}, "expected": xc.want, "observed": p.Stdout})
+			}
+		}
+	}
 	rc.Set("states", res.Distinct+tv.Distinct)
 	rc.Set("transitions", res.Generated+tv.Generated)
 	rc.Set("traces_validated_against_impl", docsJudged)
